@@ -61,4 +61,49 @@ RULE = ("histories of 1-4 generations, flat and nested to depth 3; exactly one f
         "random position of ANY manifest of ANY history (root or nested, any generation), removal of such a manifest, or removal of a chain file; then 3-8 of the "
         "history-reading commands (create, create -sf, verify, verify -dh, diff, info, info -sf, flatten) on the root; oracle: exit code 31 / 33 / 32 and an identical "
         "byte snapshot (type, bytes, mode, mtime) of the whole tree and of the flatten destination. Non-trivial: every scenario (each has a fault).")
-check, replay = make("C05", oracles.oracle_c05, scenario, 60, 1500, RULE, snap=True)
+
+
+def big_manifest(rep, tier, seed):
+    """a manifest larger than the 1 MiB read chunk, edited beyond the first chunk: the chain check must still refuse (implementation only)"""
+    import os
+
+    from .. import core, impl
+
+    sc = core.Scratch("C05b")
+    try:
+        root = os.path.join(sc.new("big"), "r")
+        os.mkdir(root)
+        rng = core.rng_for(seed, "C05/big")
+        n = 1500
+        for k in range(n):
+            d = os.path.join(root, "reel_%02d_with_a_rather_long_folder_name_to_fill_the_manifest" % (k % 7))
+            os.makedirs(d, exist_ok=True)
+            with open(os.path.join(d, "clip_%05d_%s.mov" % (k, "x" * 150)), "wb") as fh:
+                fh.write(rng.randbytes(3))
+        oc, out = impl.run_cli("create", [root, "-h", "md5", "-h", "sha1", "-h", "c4"])
+        gens = impl.list_manifests(root)
+        mf = os.path.join(root, "ascmhl", gens[-1][1])
+        size = os.path.getsize(mf)
+        rep.count("c05.big_manifest_bytes", size)
+        if list(oc) != ["exit", 0] or size <= (1 << 20) + 1000:
+            rep.notes.append(f"big-manifest scenario not effective: outcome {oc}, size {size}")
+            return
+        data = open(mf, "rb").read()
+        for name, edit in (("append", data + b"\n"), ("flip-beyond-first-chunk", data[: (1 << 20) + 77] + bytes([data[(1 << 20) + 77] ^ 1]) + data[(1 << 20) + 78:]),
+                           ("flip-in-last-byte", data[:-1] + bytes([data[-1] ^ 2]))):
+            with open(mf, "wb") as fh:
+                fh.write(edit)
+            for cmd, args in (("verify", [root]), ("info", [root]), ("diff", [root])):
+                oc, out = impl.run_cli(cmd, args)
+                rep.case(("big", name, cmd), sample=None)
+                rep.count("c05.big." + name)
+                if list(oc) != ["exit", 31]:
+                    rep.violate("not-refused-tamper-beyond-first-chunk", {"scenario": "1500 files, manifest of %d bytes, edit %s" % (size, name), "command": cmd}, ["exit", 31], list(oc),
+                                f"{cmd} did not refuse (exit 31) although the manifest ({size} bytes) was edited ({name})")
+            with open(mf, "wb") as fh:
+                fh.write(data)
+    finally:
+        sc.cleanup()
+
+
+check, replay = make("C05", oracles.oracle_c05, scenario, 60, 1500, RULE, snap=True, extra=big_manifest)
